@@ -72,6 +72,7 @@ type denT struct {
 type scen struct {
 	Fam    string  `json:"fam"`
 	Strict bool    `json:"strict"`
+	Weak   bool    `json:"weak"`
 	Foci   []focus `json:"foci"`
 	Mt     []tok   `json:"mt"`
 	Fs     []tok   `json:"fs"`
@@ -108,6 +109,7 @@ type result struct {
 	Lines         int            `json:"lines"`
 	StrictLines   int            `json:"strict_lines"`
 	ParserChecks  int            `json:"parser_checks"`
+	WeakChecks    int            `json:"doubled_backslash_checks"`
 	Batches       int            `json:"batches"`
 	E2ELines      int            `json:"e2e_lines"`
 	E2EBatches    int            `json:"e2e_batches"`
@@ -233,6 +235,7 @@ type concrete struct {
 	mt, fs string
 	tsText string
 	exp    point
+	alt    point // weak lines: the reading in which a doubled backslash stays two characters
 }
 
 // reserved column names are outside the property: time, the driver's own id field, and the
@@ -298,9 +301,68 @@ func build(sc *scen, rng *rand.Rand, measurement string) (*concrete, error) {
 			exp.Micros = m
 		}
 		out.exp = exp
+		if sc.Weak {
+			out.alt = altPoint(sc, c, exp)
+		}
 		return out, nil
 	}
 	return nil, fmt.Errorf("could not concretise with distinct keys")
+}
+
+// altText writes the atoms of a focused section keeping every doubled backslash as two characters.
+func altText(f focus, which int, c *concretiser) string {
+	var sb strings.Builder
+	pfx := "x"
+	if which == 1 {
+		pfx = "y"
+	}
+	cls := map[string]string{"c": ",", "s": " ", "e": "=", "q": "\"", "b": "\\"}
+	for n, a := range f.Atoms {
+		t := cls[a.C]
+		if a.C == "p" {
+			t = c.symbol(fmt.Sprintf("%s%d", pfx, n+1))
+		}
+		switch a.M {
+		case "keep":
+			sb.WriteString("\\" + t)
+		case "dbl":
+			sb.WriteString("\\\\")
+		default:
+			sb.WriteString(t)
+		}
+	}
+	return sb.String()
+}
+
+// altPoint: the expected point under the other reading of `\\` in names (no collapse).
+func altPoint(sc *scen, c *concretiser, exp point) point {
+	alt := point{Meas: exp.Meas, Tags: map[string]string{}, Fields: map[string]interface{}{}, HasTs: exp.HasTs, Micros: exp.Micros}
+	over := map[string]string{}
+	for k, f := range sc.Foci {
+		over[fmt.Sprintf("%s/%d", f.Sec, f.I)] = altText(f, k, c)
+	}
+	if v, ok := over["meas/0"]; ok {
+		alt.Meas = v
+	}
+	for i, t := range sc.Den.Tags {
+		k, v := c.text(t.K), c.text(t.V)
+		if o, ok := over[fmt.Sprintf("tagkey/%d", i+1)]; ok {
+			k = o
+		}
+		if o, ok := over[fmt.Sprintf("tagval/%d", i+1)]; ok {
+			v = o
+		}
+		alt.Tags[k] = v
+	}
+	for j, f := range sc.Den.Fields {
+		k := c.text(f.K)
+		if o, ok := over[fmt.Sprintf("fieldkey/%d", j+1)]; ok {
+			k = o
+		}
+		v, _ := c.value(f)
+		alt.Fields[k] = v
+	}
+	return alt
 }
 
 func recView(r *models.Record) map[string]interface{} {
@@ -490,6 +552,23 @@ func main() {
 			default:
 				what = comparePoint(recs[0], c.exp, t0, t1)
 				got = recView(recs[0])
+			}
+			if !sc.Strict && sc.Weak {
+				// doubled backslash in a name: exact up to the open choice (one backslash or two)
+				if what != "" && len(recs) == 1 && comparePoint(recs[0], c.alt, t0, t1) == "" {
+					what = ""
+				}
+				res.WeakChecks++
+				if what != "" {
+					sig := signature(sc, what)
+					if strings.HasPrefix(sig, "escape-handling:") {
+						sig = "doubled-backslash-in-name:" + strings.TrimPrefix(sig, "escape-handling:")
+					}
+					r.violate(sig, witness{Line: c.line, Precision: sc.Ts.Prec, Family: sc.Fam, Foci: sc.Foci,
+						Expected: []interface{}{expView(c.exp), expView(c.alt)}, Got: got, Stage: "ParseBatchWithPrecision",
+						Note: "a backslash written as \\\\ in a name may denote one or two backslashes, but it escapes nothing after it: the point must be kept with the same tags and fields"})
+				}
+				continue
 			}
 			if !sc.Strict {
 				key := lenientKey(sc)
